@@ -170,4 +170,52 @@ example :
     History.pushDelta, PayloadDelta.construct, PayloadDelta.isEmpty, stdConstruct, aspaConstruct,
     keyed, mergeH, consOpt, serialAdd, serialMod]
 
+/-- Number of updates of a sequence that reported a new version, with the resulting history. -/
+def History.runCount (h : History) : List Snapshot → History × Nat
+  | [] => (h, 0)
+  | s :: ss =>
+    let r := h.update s
+    let rest := r.1.runCount ss
+    (rest.1, (if r.2 then 1 else 0) + rest.2)
+
+/-- **The serial counts the changes.** On a history that already has data, after any
+sequence of validation runs the serial has advanced (modulo 2^32) by exactly the number of
+runs that reported a new version — no change is ever skipped or counted twice. -/
+theorem C14_serial_counts (ss : List Snapshot) (h : History) (cur : Snapshot)
+    (hc : h.current = some cur) (hcw : cur.WF) (hs : ∀ s ∈ ss, s.WF) :
+    (h.runCount ss).1.serial = serialAdd h.serial (h.runCount ss).2 ∨
+      ((h.runCount ss).2 = 0 ∧ (h.runCount ss).1.serial = h.serial) := by
+  induction ss generalizing h cur with
+  | nil => right; simp [History.runCount]
+  | cons s ss ih =>
+    have hsw : s.WF := hs s (by simp)
+    obtain ⟨h1, h2, h3⟩ := C14_serial_step h cur s hc hcw hsw
+    have ih' := ih (h.update s).1 s h3 hsw (fun x hx => hs x (by simp [hx]))
+    simp only [History.runCount]
+    by_cases e : cur = s
+    · rw [if_pos e] at h1 h2
+      rw [h2]
+      simp only [Bool.false_eq_true, if_false, Nat.zero_add]
+      rw [h1] at ih'
+      exact ih'
+    · rw [if_neg e] at h1 h2
+      rw [h2]
+      left
+      simp only [if_true]
+      rcases ih' with ih' | ⟨z, ih'⟩
+      · rw [ih', h1]; simp only [serialAdd, serialMod]; omega
+      · rw [ih', h1, z]
+
+
+/-- From start-up: the first data set has serial 0 and after any further runs the serial is
+the number of runs that reported a new version, modulo 2^32. -/
+theorem C14_serial_counts_init (keep session : Nat) (s0 : Snapshot) (ss : List Snapshot)
+    (h0 : s0.WF) (hs : ∀ s ∈ ss, s.WF) :
+    ((((History.init keep session).update s0).1).runCount ss).1.serial =
+      ((((History.init keep session).update s0).1).runCount ss).2 % serialMod := by
+  obtain ⟨z, _, hc, _⟩ := C14_first_serial_zero keep session s0
+  rcases C14_serial_counts ss _ s0 hc h0 hs with h | ⟨hn, h⟩
+  · rw [h, z]; simp [serialAdd]
+  · rw [h, z, hn]; simp [serialMod]
+
 end RoutinatorModel
